@@ -21,7 +21,7 @@ def matches_known(k, pid, harness, desc):
 PLAYBACK_RS = os.path.join(ROOT, ".work", "playback_gen.rs")
 
 
-def playback(drv, h_name, cfg, cap, wanted_descs):
+def playback(drv, h_name, cfg, cap, wanted_descs, extra_cbmc=()):
     """Asks kani for concrete values of each failing check of harness `h_name`, re-executes the
     harness natively with them (cargo kani playback: the real crate code compiled by rustc,
     the hash-map contract model with the recorded iteration-order choices) and, for memory
@@ -30,6 +30,8 @@ def playback(drv, h_name, cfg, cap, wanted_descs):
     tdir = os.path.join(drv.WORK, "t_play_%s_cap%d" % (cfg, cap))
     cmd = ["cargo", "kani", "--target-dir", tdir, "--harness", h_name, "--exact",
            "--no-assertion-reach-checks", "-Z", "concrete-playback", "--concrete-playback=print"]
+    if extra_cbmc:
+        cmd += ["-Z", "unstable-options", "--cbmc-args"] + list(extra_cbmc)
     hdir = drv.CFG_DIR[cfg]
     r = drv.sh(cmd, cwd=hdir, env=env, timeout=7200)
     out = r.stdout
@@ -78,7 +80,8 @@ def playback(drv, h_name, cfg, cap, wanted_descs):
     for t in tests:
         t["valgrind_errors"] = None
         if bins and not t["native_failed"]:
-            r = drv.sh(["valgrind", "--error-exitcode=97", "-q", bins[-1], t["test"], "--test-threads=1"],
+            r = drv.sh(["valgrind", "--error-exitcode=97", "-q", "--leak-check=full", "--errors-for-leak-kinds=definite",
+                        bins[-1], t["test"], "--test-threads=1"],
                        env=env, timeout=1800)
             t["valgrind_errors"] = (r.returncode == 97)
             t["valgrind_output"] = r.stdout[-2000:]
@@ -96,7 +99,8 @@ MEMORY_CLASSES = ("pointer_dereference", "precondition_instance", "safety_check"
 def confirm(drv, pid, r, fails):
     """Replays the failing checks of one harness result. -> (confirmed [..], unconfirmed [..], record)"""
     cfg, cap = r.get("cfg", "nostd"), r.get("cap", 4)
-    kani_failed, tests = playback(drv, r["harness"], cfg, cap, [f["desc"] for f in fails])
+    extra = [x for x in (r.get("flags") or "").split() if x]
+    kani_failed, tests = playback(drv, r["harness"], cfg, cap, [f["desc"] for f in fails], extra)
     confirmed, unconfirmed = [], []
     for f in fails:
         rec = {"check": f["desc"], "class": f["class"], "location": "%s:%s" % (f["file"], f["line"]),
